@@ -486,3 +486,173 @@ def c_enum_build(c, k):
     c.check("one assertion restricts the variable", len(bt.asserted) == 1)
     want = z3.Or(*[n.term == z3.Int2BV(e.z, 32) for e in es])
     c.check("asserted node <=> variable equals a declared enumerator", bt.asserted[0].term == b1(want))
+
+
+# ---- membership, references, dist hard formula ----------------------------------------------------------------------------
+def in_cases(tier, seed):
+    ws = [(4, False), (8, True), (32, False), (33, True)]
+    shapes = [["r"], ["v"], ["r", "v"], ["v", "r", "r"], []]
+    return [(w, s, sh, ew, es) for (w, s) in ws for sh in shapes for (ew, es) in ((w, s), (32, True))]
+
+
+@contract("expr_in.build", ["C01", "C15"], ["vsc.model.expr_in_model.ExprInModel.build", "vsc.model.expr_in_model.ExprInModel.width",
+                                            "vsc.model.expr_in_model.ExprInModel.is_signed"], in_cases, replay="none",
+          note="`in`: left operand and range-list entries are abstract expressions (same type as the operand, or 32-bit signed "
+               "literals); 0..3 entries, ranges and single values in any order")
+def c_in_build(c, w, s, shape, ew, es):
+    from vsc.model.expr_in_model import ExprInModel
+    from vsc.model.expr_rangelist_model import ExprRangelistModel
+    from vsc.model.expr_range_model import ExprRangeModel
+    bt = GhostBoolector()
+    lhs = EStub(w, s, "self", "x")
+    ents = []
+    rl = ExprRangelistModel()
+    kind = "ctx" if (ew, es) == (32, True) else "self"
+    for i, k in enumerate(shape):
+        if k == "r":
+            lo, hi = EStub(ew, es, kind, "lo%d" % i), EStub(ew, es, kind, "hi%d" % i)
+            rl.add_range(ExprRangeModel(lo, hi))
+            ents.append((lo, hi))
+        else:
+            v = EStub(ew, es, kind, "v%d" % i)
+            rl.add_range(v)
+            ents.append((v,))
+    e = ExprInModel(lhs, rl)
+    n = e.build(bt)
+    W = max(w, ew)
+    sg = s and es
+    X = z3.BitVec("%s@%d" % (lhs.name, w), w)
+
+    def T(st):
+        wd = st.w if st.kind == "self" else max(st.w, W)
+        return z3.BitVec("%s@%d" % (st.name, wd), wd)
+    want = z3.BitVecVal(0, 1)
+    for en in ents:
+        if len(en) == 2:
+            t = ref_bin("Ge", X, T(en[0]), sg, W) & ref_bin("Le", X, T(en[1]), sg, W)
+        else:
+            t = ref_bin("Eq", X, T(en[0]), sg, W)
+        want = want | t
+    if not ents:
+        want = z3.BitVecVal(1, 1)      # as built: an empty list imposes nothing
+    c.check("x in rangelist == disjunction of (lo <= x and x <= hi) / (x == v) under R-EXPR comparison rules",
+            And(n.width == 1, n.term == want))
+    c.check("width() == 1 and is_signed() is False", e.width() == 1 and e.is_signed() is False)
+
+
+@contract("expr_refs.build", ["C01", "C08"],
+          ["vsc.model.expr_fieldref_model.ExprFieldRefModel.build", "vsc.model.expr_indexed_field_ref_model.ExprIndexedFieldRefModel.build",
+           "vsc.model.expr_array_subscript_model.ExprArraySubscriptModel.build", "vsc.model.expr_array_subscript_model.ExprArraySubscriptModel.width",
+           "vsc.model.expr_indexed_field_ref_model.ExprIndexedFieldRefModel.width"],
+          lambda tier, seed: [(w, s) for w in (1, 8, 33) for s in (False, True)], replay="none")
+def c_refs(c, w, s):
+    from vsc.model.field_scalar_model import FieldScalarModel
+    from vsc.model.field_composite_model import FieldCompositeModel
+    from vsc.model.field_array_model import FieldArrayModel
+    from vsc.model.expr_fieldref_model import ExprFieldRefModel
+    from vsc.model.expr_indexed_field_ref_model import ExprIndexedFieldRefModel
+    from vsc.model.expr_array_subscript_model import ExprArraySubscriptModel
+    from vsc.model.expr_literal_model import ExprLiteralModel
+    bt = GhostBoolector()
+    root = FieldCompositeModel("o", True)
+    sub = root.add_field(FieldCompositeModel("s", True))
+    f0 = sub.add_field(FieldScalarModel("f0", w, s, True))
+    f1 = sub.add_field(FieldScalarModel("f1", w, s, True))
+
+    class T:
+        width = w
+    arr = root.add_field(FieldArrayModel("l", T(), True, None, w, s, True, False))
+    for _ in range(3):
+        arr.add_field()
+    root.set_used_rand(True, 0)
+    for f in [f0, f1] + arr.field_l:
+        f.build(bt)
+    r = ExprFieldRefModel(f1)
+    c.check("a field reference is the field's own solver node, with the field's width and sign",
+            r.build(bt) is f1.var and r.width() == w and r.is_signed() is s)
+    ir = ExprIndexedFieldRefModel(ExprFieldRefModel(root), [0, 1])
+    c.check("an indexed reference builds the node of exactly root.field_l[0].field_l[1]",
+            ir.build(bt) is f1.var and ir.width() == w and ir.is_signed() is s)
+    for i in range(3):
+        sb = ExprArraySubscriptModel(ExprFieldRefModel(arr), ExprLiteralModel(i, False, 32))
+        c.check("list[i] builds the node of exactly element i", sb.build(bt) is arr.field_l[i].var and sb.width() == w and sb.is_signed() is s)
+    g = FieldScalarModel("g", w, s, True)
+    try:
+        ExprFieldRefModel(g).build(bt)
+        c.check("a reference to a field that was not built is rejected (never a silent fresh node)", False)
+    except Exception:
+        c.check("a reference to a field that was not built is rejected (never a silent fresh node)", True)
+
+
+def dist_cases(tier, seed):
+    out = []
+    for k in (1, 2, 3):
+        for kinds in itertools.product(("v", "r"), repeat=k):
+            for zeros in itertools.product((False, True), repeat=k):
+                out.append((list(kinds), list(zeros)))
+    return out if tier == "thorough" else out[::2]
+
+
+@contract("dist_constraint_builder.visit_constraint_dist", ["C15", "C09"],
+          ["vsc.visitors.dist_constraint_builder.DistConstraintBuilder.visit_constraint_dist",
+           "vsc.model.constraint_dist_scope_model.ConstraintDistScopeModel.next_target_range"], dist_cases, replay="none",
+          note="dist rewrite: 1..3 entries (values / ranges), every pattern of zero weights; entry bounds are abstract expressions, "
+               "weights non-random values; the scope's node is compared with the R-EXPR formula")
+def c_dist_builder(c, kinds, zeros):
+    from vsc.visitors.dist_constraint_builder import DistConstraintBuilder
+    from vsc.model.constraint_dist_model import ConstraintDistModel
+    from vsc.model.dist_weight_expr_model import DistWeightExprModel
+    from vsc.model.constraint_block_model import ConstraintBlockModel
+    from vsc.model.constraint_override_model import ConstraintOverrideModel
+    from vsc.model.constraint_dist_scope_model import ConstraintDistScopeModel
+    from vsc.model.expr_literal_model import ExprLiteralModel
+    from pyvc.ghost import GhostRandState
+    W = 8
+    lhs = EStub(W, False, "self", "x")
+    ws_ = []
+    ents = []
+    wl = []
+    for i, (k, z) in enumerate(zip(kinds, zeros)):
+        wv = 0 if z else (i + 2)
+        wl.append(wv)
+        lo = EStub(W, False, "self", "lo%d" % i)
+        hi = EStub(W, False, "self", "hi%d" % i) if k == "r" else None
+        ents.append((lo, hi))
+        ws_.append(DistWeightExprModel(lo, hi, ExprLiteralModel(wv, False, 32)))
+    if sum(wl) == 0:
+        c.check("case skipped: all weights zero (no draw range)", True)
+        return
+    d = ConstraintDistModel(lhs, ws_)
+    blk = ConstraintBlockModel("c", [d])
+    rs_ = GhostRandState(c)
+    b = DistConstraintBuilder(rs_)
+    b.visit_constraint_scope(blk)
+    ov = blk.constraint_l[0]
+    c.check("the dist statement is overridden (for this call) by a dist scope that remembers the original",
+            isinstance(ov, ConstraintOverrideModel) and ov.orig_constraint is d and isinstance(ov.new_constraint, ConstraintDistScopeModel)
+            and ov.new_constraint.dist_c is d)
+    sc = ov.new_constraint
+    c.check("weight_list == the (weight, index) pairs with weight > 0, ascending by weight; total_weight == sum of all weights",
+            sc.weight_list == sorted([(wv, i) for i, wv in enumerate(wl) if wv > 0], key=lambda t: t[0]) and sc.total_weight == sum(wl))
+    c.check("exactly one draw, from the RandState handed to the builder, over [1, total]",
+            len(rs_.rng.draws) == 1 and rs_.rng.draws[0][0] == 1 and rs_.rng.draws[0][1] == sum(wl))
+    bt = GhostBoolector()
+    n = ov.build(bt, False)
+    X = z3.BitVec("%s@%d" % (lhs.name, W), W)
+
+    def T(st):
+        return z3.BitVec("%s@%d" % (st.name, W), W)
+
+    def inside(lo, hi):
+        if hi is None:
+            return ref_bin("Eq", X, T(lo), False, W)
+        return ref_bin("Ge", X, T(lo), False, W) & ref_bin("Le", X, T(hi), False, W)
+    any_e = z3.BitVecVal(0, 1)
+    for lo, hi in ents:
+        any_e = any_e | inside(lo, hi)
+    want = any_e
+    for (lo, hi), wv in zip(ents, wl):
+        if wv == 0:
+            want = want & ~inside(lo, hi)
+    c.check("hard formula of a dist: x inside some listed entry AND outside every zero-weight entry (R-EXPR)",
+            And(n.width == 1, n.term == want))
